@@ -439,6 +439,24 @@ func genC15(g *gen, tier string) *Scenario {
 		}
 		sc.Clients = append(sc.Clients, ops)
 	}
+	if g.pct(8) {
+		// the hand-off queue between eviction and the workers (256 slots) overflows: a burst of
+		// evictions while every secondary Set is slow. Entries that find no room are dropped, not
+		// demoted - but they must leave memory, and memory must stay bounded and fully tracked
+		sc.Family = kind + ",handoff-queue-overflow"
+		sc.Params["failing"] = 1 // only the bounded-memory clauses are judged
+		sc.Stubs.SecSetErrPct = pick(g, 0, 0, 30)
+		sc.Stubs.SecSlowPct = 100
+		sc.Stubs.SecSlowDur = int64(g.rng(20, 400)) * ms
+		sc.Cache.Pool = false
+		sc.Cache.WriteChan, sc.Cache.WriteBuf = 64, 128
+		sc.Sim.MaxSteps = 5000000
+		burst := []Op{{Kind: "sleep", Dur: int64(g.rng(0, 300)) * ms}, {Kind: "fill", Key: 1000, N: g.rng(300, 900)}}
+		if kind == "hybridloading" {
+			burst = []Op{{Kind: "sleep", Dur: int64(g.rng(0, 300)) * ms}, {Kind: "heat", Key: 1000, N: g.rng(300, 900), Cost: 1}}
+		}
+		sc.Clients = append(sc.Clients, burst)
+	}
 	ep := []Op{{Kind: "waitidle"}, {Kind: "wait"}, {Kind: "waitidle"}, {Kind: "snap", Label: "final"}, {Kind: "xsecdump"}}
 	for k := 0; k < nkeys; k++ {
 		ep = append(ep, Op{Kind: "get", Key: k})
@@ -487,6 +505,10 @@ func checkC15x(rd *RunData) []Violation {
 	}
 	failing := rd.Sc.Params["failing"] == 1
 	if failing {
+		label := "secondary-set-fails"
+		if strings.Contains(rd.Sc.Family, "handoff-queue-overflow") {
+			label = "handoff-queue-overflow"
+		}
 		failed := 0
 		for _, s := range rd.Sec {
 			if s.Op == "set" && s.Err {
@@ -507,11 +529,11 @@ func checkC15x(rd *RunData) []Violation {
 			sum += e.Weight
 		}
 		if sum > rd.Sc.Cache.MaxSize {
-			vs = append(vs, Violation{"C15/unbounded-memory/secondary-set-fails", fmt.Sprintf("at quiescence %d entries with total cost %d are resident in memory, MaxSize is %d (%d secondary Set calls failed)", len(sn.Resident), sum, rd.Sc.Cache.MaxSize, failed)})
+			vs = append(vs, Violation{"C15/unbounded-memory/" + label, fmt.Sprintf("at quiescence %d entries with total cost %d are resident in memory, MaxSize is %d (%d secondary Set calls failed)", len(sn.Resident), sum, rd.Sc.Cache.MaxSize, failed)})
 		}
 		for _, e := range residentErrors(sn) {
 			if strings.HasPrefix(e, "untracked-resident") || strings.HasPrefix(e, "over-capacity") {
-				vs = append(vs, Violation{"C15/unbounded-memory/" + classify(e) + ",secondary-set-fails", "at quiescence: " + e})
+				vs = append(vs, Violation{"C15/unbounded-memory/" + classify(e) + "," + label, "at quiescence: " + e})
 			}
 		}
 		return vs
